@@ -6,17 +6,55 @@ open MdIt.Link
 #check @normalized_alphabet_chars
 #check @preprocess_id
 #check @validate_sound
+#check @validate_exact
 #check @pipeline_safe
 #check @pipeline_safe_ref
 #check @pipeline_safe_autolink
 #check @inlineHref_safe
+#check @validate_rejects
+#check @goodData_needs_data
+#check @validate_rejects_spelling
+#check @validate_rejects_data
+#check @slice_ok_iff
+#check @dest_total
+#check @dest_panics_iff
+#check @dest_spec
+#check @dest_pos_bounds
+#check @BareToks.no_space
+#check @BareToks.ctrl_escaped
+#check @dest_no_ctrl
+#check @title_total
+#check @title_panics_iff
+#check @title_delims
+#check @TitleToks.lines_le
+#check @rejected_stays_literal
+#check @tail_total
 #print axioms linkSafe_eq
 #print axioms utf8_bytes
 #print axioms normalized_alphabet
 #print axioms normalized_alphabet_chars
 #print axioms preprocess_id
 #print axioms validate_sound
+#print axioms validate_exact
 #print axioms pipeline_safe
 #print axioms pipeline_safe_ref
 #print axioms pipeline_safe_autolink
 #print axioms inlineHref_safe
+#print axioms validate_rejects
+#print axioms goodData_needs_data
+#print axioms validate_rejects_spelling
+#print axioms validate_rejects_data
+#print axioms slice_ok_iff
+#print axioms dest_total
+#print axioms dest_panics_iff
+#print axioms dest_spec
+#print axioms dest_pos_bounds
+#print axioms BareToks.no_space
+#print axioms BareToks.ctrl_escaped
+#print axioms dest_no_ctrl
+#print axioms title_total
+#print axioms title_panics_iff
+#print axioms title_delims
+#print axioms TitleToks.lines_le
+#print axioms rejected_stays_literal
+#print axioms tail_total
